@@ -1,8 +1,9 @@
 (* C11: reader/writer transports are equivalent to the slice path and never over-read
-   (partial: how std::io / embedded-io deliver data in pieces is inside read_exact /
-   write_all, which are modelled; the harness drives real readers and writers that move 1
-   byte, random short pieces or everything, with failures injected at every offset). *)
-From PV Require Import Base MachineInt DataModel Ser De SerFlavors DeFlavors Simulation IoFacts.
+   (partial: read_exact / write_all are std's loops, modelled here, not translated; the
+   harness drives real readers and writers that move 1 byte, random short pieces or
+   everything, with interruptions, and failures injected at every offset, and replays each
+   reader run on the model's chunked reader event by event). *)
+From PV Require Import Base MachineInt DataModel Ser De SerFlavors DeFlavors IoChunks Simulation IoFacts IoChunkFacts.
 Open Scope N_scope.
 
 (* writing through a writer produces exactly the plain encoding *)
@@ -37,6 +38,25 @@ Theorem C11_from_io_is_slice : forall (t : ty) (input scratch : list byte),
   end.
 Proof. exact from_io_is_slice. Qed.
 
+(* every way a reader delivers its data in pieces: a schedule decides, call by call, how many
+   bytes `read` hands over (at least one, never more than asked) and when it is interrupted;
+   read_exact (std's loop, modelled in IoChunks.v) runs over it.  Whatever the schedule,
+   decoding yields what slice decoding yields and leaves in the reader exactly the bytes
+   after the message *)
+Theorem C11_any_chunking_is_slice : forall (t : ty) (input : list byte) (sched : list rd_event) (scratch : list byte),
+  gentle sched = true -> (length input <= length scratch)%nat ->
+  match from_io_c t {| cr_data := input; cr_sched := sched |} scratch, de_slice t input with
+  | Ok (v, (rd, _, _)), Ok (v', rest) => v = v' /\ cr_data rd = rest
+  | Err e, Err e' => e = e'
+  | _, _ => False
+  end.
+Proof. exact from_io_chunked_is_slice. Qed.
+(* and with end-of-stream reports and failures at any call, any scratch size: a value or an
+   error, never a panic, never a write outside the scratch buffer, and the loop terminates *)
+Theorem C11_any_schedule_total : forall (t : ty) (r : creader) (scratch : list byte),
+  benign (from_io_c t r scratch).
+Proof. exact from_io_chunked_total. Qed.
+
 (* any reader (failing at any point), any scratch size: a value or an error, never a panic,
    never a write outside the scratch buffer *)
 Theorem C11_from_io_total : forall (t : ty) (r : reader) (scratch : list byte),
@@ -59,6 +79,12 @@ Example C11_example :
   = Err DeserializeUnexpectedEnd /\
   from_io TStr {| rd_data := [2; 104; 105]; rd_limit := None |} [0] = Err DeserializeUnexpectedEnd.
 Proof. repeat split; vm_compute; reflexivity. Qed.
+Example C11_chunked_example :
+  from_io_c (TTuple [TStr; TInt U16]) {| cr_data := [2; 104; 105; 172; 2; 9; 9]; cr_sched := [RdGive 0; RdInterrupted; RdGive 0; RdInterrupted; RdGive 5; RdGive 0] |} [0; 0; 0]
+  = Ok (VTuple [VStr [104; 105]; VInt U16 300], ({| cr_data := [9; 9]; cr_sched := [] |}, [104; 105; 0], 2%nat)) /\
+  from_io_c (TTuple [TStr; TInt U16]) {| cr_data := [2; 104; 105; 172; 2; 9; 9]; cr_sched := [RdGive 0; RdGive 0; RdFail] |} [0; 0; 0]
+  = Err DeserializeUnexpectedEnd.
+Proof. split; vm_compute; reflexivity. Qed.
 
 Print Assumptions C11_to_io_is_encode.
 Print Assumptions C11_to_io_failure.
@@ -66,3 +92,5 @@ Print Assumptions C11_writer_prefix.
 Print Assumptions C11_from_io_is_slice.
 Print Assumptions C11_from_io_total.
 Print Assumptions C11_scratch_slots.
+Print Assumptions C11_any_chunking_is_slice.
+Print Assumptions C11_any_schedule_total.
